@@ -37,7 +37,7 @@ class EndOfSimulation(BaseException):
 
 class Proc:
     __slots__ = ("pid", "age", "worker", "state", "status", "born", "died", "policy", "sent", "spawn_index",
-                 "reaped_at")
+                 "reaped_at", "fork_point", "tracked_at_reap")
 
     def __init__(self, pid, worker, born, policy, spawn_index):
         self.pid = pid
@@ -51,6 +51,8 @@ class Proc:
         self.sent = []              # (t, sig) signals sent by the master
         self.spawn_index = spawn_index
         self.reaped_at = None
+        self.fork_point = None      # injection-point counter when fork() was called (None: forked inside the SIGCHLD handler)
+        self.tracked_at_reap = None  # was the pid in Arbiter.WORKERS when waitpid() returned it?
 
 
 class SimTmp:
@@ -332,6 +334,8 @@ class SimKernel:
         self.spawn_count += 1
         pol = self.policy_for_spawn(i)
         pr = Proc(pid, SimWorker.last, self.now, pol, i)
+        if not self.in_handler:
+            pr.fork_point = self.points
         self.procs[pid] = pr
         self.log.append((self.now, "fork", pid, pr.age, self.points))
         if self.boot_failure_reaped_at is not None:
@@ -390,6 +394,7 @@ class SimKernel:
         pr = z[0]
         pr.state = "reaped"
         pr.reaped_at = self.now
+        pr.tracked_at_reap = pr.pid in arb_mod.Arbiter.WORKERS
         self.log.append((self.now, "reaped", pr.pid, pr.status))
         code = pr.status >> 8
         if code in (3, 4) and self.boot_failure_reaped_at is None:
@@ -448,6 +453,22 @@ class IndexSchedule:
             self.k_list.pop(0)
             return True
         return False
+
+
+class AfterForkSchedule:
+    """A child that is scripted to die at once after its own fork (policy die_after == 0) dies exactly `offset` injection
+    points after fork() returned in the master: 0 = at the return itself, 1.. = before the source lines of spawn_worker that
+    follow (the master records the pid a few lines later).  Every other death happens at the first opportunity."""
+
+    def __init__(self, offset):
+        self.offset = offset
+
+    def fire(self, kernel, idx, name, pid):
+        pr = kernel.procs.get(pid)
+        if pr is not None and pr.fork_point is not None and pr.policy.get("die_after") is not None \
+                and pr.policy["die_after"] <= 0 and not pr.sent:
+            return idx >= pr.fork_point + 1 + self.offset
+        return True
 
 
 # ---- facades ------------------------------------------------------------------------------------
